@@ -132,6 +132,14 @@ outputBufferPairs:
             - type: inline
               field: class
             - type: copy
+          class:
+            - type: inline
+              field: pid
+            - type: unescape
+          host:
+            - type: inline
+              field: app
+            - type: copy
       messageMode: Forward
       upstream:
         address: localhost:24224
@@ -474,6 +482,6 @@ func gen(t *rapid.T) Case {
 func TestC16Config(t *testing.T) {
 	vh.Run(t, vh.Spec[Case]{
 		Name: "config", Gen: gen, Run: runCase, Quick: 500, Thorough: 6000, Enum: enumAll,
-		Rule: "site x fault enumeration on the YAML node tree of the sample and a second hand-written configuration (every node: delete, empty; every scalar: 19 fault values + every schema field name), plus rapid-generated valid configuration files (tprog grammar: extractions, byKeySet/singleton, 1-2 outputs, rewrites) with and without one random mutation; oracle = run.ParseConfigFile returns a value; if accepted, parser/transforms/serializers/chunk makers process 55 records twice synchronously and the real orchestrator with real buffers builds pipelines and processes records without panic or fault; non-trivial = a mutated configuration; distinct = (base, site, fault)",
+		Rule: "site x fault enumeration on the YAML node tree of the sample and a second hand-written configuration (which also has rewrite chains on a hidden and on an environment field) (every node: delete, empty; every scalar: 19 fault values + every schema field name), plus rapid-generated valid configuration files (tprog grammar: extractions, byKeySet/singleton, 1-2 outputs, rewrites) with and without one random mutation; oracle = run.ParseConfigFile returns a value; if accepted, parser/transforms/serializers/chunk makers process 55 records twice synchronously and the real orchestrator with real buffers builds pipelines and processes records without panic or fault; non-trivial = a mutated configuration; distinct = (base, site, fault)",
 	})
 }
